@@ -92,7 +92,27 @@ class Hang(BaseException):    # not swallowed by the catch-alls of the code unde
     pass
 
 
+_watch = {'seen': None, 'interval': 30}
+
+
+def _arm(seconds):
+    """CPU-time watchdog: fires only when `seconds` of this process's own
+    CPU time pass without one VM instruction completing."""
+    from verif import harness
+    _watch['seen'] = harness.PROGRESS[0]
+    _watch['interval'] = seconds
+    signal.setitimer(signal.ITIMER_VIRTUAL, seconds)
+
+
 def _alarm(signum, frame):
+    from verif import harness
+    if harness.PROGRESS[0] != _watch['seen']:
+        # instructions are still being completed: slow (a 255 x 255 matrix
+        # per pass of an endless loop, say), not stuck; the instruction
+        # budget ends such a run
+        _watch['seen'] = harness.PROGRESS[0]
+        signal.setitimer(signal.ITIMER_VIRTUAL, _watch['interval'])
+        return
     raise Hang()
 
 
@@ -179,7 +199,7 @@ def evaluate(acc, text, must_reject=None, label='soup'):
     # CPU time of this process, not wall-clock time: a loaded host must not
     # turn a slow case into a 'hang'
     signal.signal(signal.SIGVTALRM, _alarm)
-    signal.setitimer(signal.ITIMER_VIRTUAL, 30)
+    _arm(30)
     try:
         ok = parser.parse(text)
     except Hang:
@@ -232,7 +252,7 @@ def evaluate(acc, text, must_reject=None, label='soup'):
         return
     # accepted: execute on the budgeted machine
     del w.trace[:]
-    signal.setitimer(signal.ITIMER_VIRTUAL, 90)
+    _arm(90)
     try:
         result = w.run(text, budget=5000)
     except Hang:
